@@ -310,6 +310,11 @@ pub fn txin(p: &mut Prng, s: &TxSpec, first: bool, with_witness: bool) -> TxIn {
         if s.issuance && p.chance(1, 2) {
             i.asset_issuance = issuance(p, s.confidential);
         }
+        // index 2^30-1 with both flags encodes as 0xffffffff, which the format reserves for "no flags"
+        // (coinbase marker): not a canonical value (DESIGN §4 C01 generator domain)
+        if i.is_pegin && i.has_issuance() && i.previous_output.vout == (1 << 30) - 1 {
+            i.previous_output.vout -= 1;
+        }
     }
     i.script_sig = script(p, s.max_blob);
     i.sequence = sequence(p);
@@ -373,3 +378,56 @@ pub fn vbf(p: &mut Prng) -> ValueBlindingFactor {
 }
 
 pub use zkp::ZERO_TWEAK;
+
+// ------------------------------------------------------------------------------------------------
+// blocks, headers, dynafed params
+
+use elements::dynafed::{ElidedRoot, FullParams, Params};
+use elements::{Block, BlockExtData, BlockHash, BlockHeader, TxMerkleNode};
+
+pub fn params(p: &mut Prng, max_blob: usize) -> Params {
+    match p.below(3) {
+        0 => Params::Null,
+        1 => Params::Compact { signblockscript: script(p, max_blob), signblock_witness_limit: p.u32(), elided_root: ElidedRoot::from_byte_array(p.arr32()) },
+        _ => {
+            let n_ext = p.usize_below(4);
+            Params::Full(FullParams::new(
+                script(p, max_blob),
+                p.u32(),
+                elements::bitcoin::ScriptBuf::from_bytes({ let n = p.len_biased(max_blob); p.bytes(n) }),
+                { let n = p.len_biased(max_blob); p.bytes(n) },
+                (0..n_ext).map(|_| { let n = p.len_biased(max_blob.min(300)); p.bytes(n) }).collect(),
+            ))
+        }
+    }
+}
+
+pub fn header(p: &mut Prng, max_blob: usize) -> BlockHeader {
+    let ext = if p.coin() {
+        BlockExtData::Proof { challenge: script(p, max_blob), solution: script(p, max_blob) }
+    } else {
+        BlockExtData::Dynafed { current: params(p, max_blob), proposed: params(p, max_blob), signblock_witness: witness_stack(p, 4, max_blob.min(300)) }
+    };
+    BlockHeader {
+        version: p.u32() & 0x7fff_ffff,
+        prev_blockhash: BlockHash::from_byte_array(p.arr32()),
+        merkle_root: TxMerkleNode::from_byte_array(p.arr32()),
+        time: p.u32(),
+        height: p.u32(),
+        ext,
+    }
+}
+
+pub fn block(seed: u64, n_tx: usize, txs: &TxSpec) -> Block {
+    let mut p = Prng::from_u64(seed);
+    let h = header(&mut p, txs.max_blob.min(300));
+    let txdata = (0..n_tx)
+        .map(|_| {
+            let mut s = txs.clone();
+            s.seed = p.u64();
+            s.coinbase = false;
+            tx(&s)
+        })
+        .collect();
+    Block { header: h, txdata }
+}
